@@ -1421,6 +1421,36 @@ def fam_optim(rng, n, tier, mode="exact", frompass=True):
         L += ["clone old p0", "gdupdate %s %s" % (sc(0, mode), ",".join(names)), "snapshot"] + ["probe %s" % nm for nm in names] + ["grad old", "probe old"]
         L += ["gd G %s" % sc(0, mode)] + ["setgrad %s g%s" % (nm, nm) for nm in names] + ["gdstep G %s" % ",".join(names), "snapshot"]
         cases.append(Case(L, ("optzero", k), ["lr-zero"], mode))
+    # the tracking state a parameter is in when the step runs: tracked, tracking paused after a pass (the
+    # documented evaluation idiom), switched off, never switched on (gradient deposited directly) - the stepped
+    # parameter is a tracked leaf without gradient whatever it was, and takes part in the next pass
+    states = ("tracked", "stopped", "untracked", "never", "stopped-after-pass")
+    st_combos = [(st,) for st in states] + list(itertools.product(states, repeat=2)) + [tuple(rng.choice(states) for _ in range(3)) for _ in range(6)]
+    for sts in st_combos:
+        L = []
+        names = ["p%d" % i for i in range(len(sts))]
+        for nm, st in zip(names, sts):
+            sh = rand_shape(rng, 2, 3)
+            L.append("new %s %s %s" % (nm, dims_s(sh), vals_s(gen_vals(rng, prod(sh), mode), mode)))
+            gl = ["new g%s %s %s" % (nm, dims_s(sh), vals_s(gen_vals(rng, prod(sh), mode), mode)), "setgrad %s g%s" % (nm, nm)]
+            if st == "tracked":
+                L += ["tracked %s" % nm] + gl
+            elif st == "stopped":
+                L += ["tracked %s" % nm] + gl + ["stop %s" % nm]
+            elif st == "untracked":
+                L += ["tracked %s" % nm] + gl + ["untracked %s" % nm]
+            elif st == "never":
+                L += gl
+            else:
+                L += ["tracked %s" % nm, "new c%s %s %s" % (nm, dims_s(sh), vals_s(gen_vals(rng, prod(sh), mode), mode)),
+                      "mul r%s %s c%s" % (nm, nm, nm), "backward r%s -" % nm, "stop %s" % nm, "mul e%s %s c%s" % (nm, nm, nm), "show e%s" % nm]
+            L.append("probe %s" % nm)
+        lr = sc(Fraction(1, 2) if mode == "exact" else 0.25, mode)
+        L += ["gdupdate %s %s" % (lr, ",".join(names)), "snapshot"] + ["probe %s" % nm for nm in names]
+        for nm in names:          # the next pass reaches the stepped parameter
+            L += ["scale s%s %s %s" % (nm, nm, sc(3, mode)), "backward s%s -" % nm, "grad %s" % nm, "probe %s" % nm]
+        L += ["gdupdate %s %s" % (lr, ",".join(names)), "snapshot"] + ["probe %s" % nm for nm in names]
+        cases.append(Case(L, ("optflags", sts), ["flag-state"] + sorted(set("state-" + st for st in sts)), mode))
     # long parameter lists / long parameters: the flat gather / step / scatter at totals from 2^10 to beyond 2^17
     for sizes in ([600, 500], [5000, 3, 4000], [40000, 30000, 7], [70000, 65000, 5], [3, 131072, 2], [50000, 50000, 50000]):
         L = []
